@@ -1096,37 +1096,7 @@ func (p *Program) goSiteArg(prm *ssa.Parameter) ssa.Value {
 		return nil
 	}
 
-	if p.callSites == nil {
-		p.callSites = map[*ssa.Function][]ssa.CallInstruction{}
-
-		var scan func(f *ssa.Function)
-
-		scan = func(f *ssa.Function) {
-			for _, b := range f.Blocks {
-				for _, in := range b.Instrs {
-					if c, ok := in.(ssa.CallInstruction); ok {
-						if g := c.Common().StaticCallee(); g != nil && g.Parent() == nil {
-							if o := g.Origin(); o != nil {
-								g = o
-							}
-
-							p.callSites[g] = append(p.callSites[g], c)
-						}
-					}
-				}
-			}
-
-			for _, a := range f.AnonFuncs {
-				scan(a)
-			}
-		}
-
-		for _, f := range p.AllOwnFuncs() {
-			if f.Parent() == nil {
-				scan(f)
-			}
-		}
-	}
+	p.buildCallSites()
 
 	sites := p.callSites[fn]
 	if len(sites) != 1 {
@@ -1508,4 +1478,84 @@ func ifOfCond(f *ssa.Function, cond ssa.Value) *ssa.If {
 	}
 
 	return nil
+}
+
+// buildCallSites indexes the static call sites of every top-level function of the module.
+func (p *Program) buildCallSites() {
+	if p.callSites != nil {
+		return
+	}
+
+	{
+		p.callSites = map[*ssa.Function][]ssa.CallInstruction{}
+
+		var scan func(f *ssa.Function)
+
+		scan = func(f *ssa.Function) {
+			for _, b := range f.Blocks {
+				for _, in := range b.Instrs {
+					if c, ok := in.(ssa.CallInstruction); ok {
+						if g := c.Common().StaticCallee(); g != nil && g.Parent() == nil {
+							if o := g.Origin(); o != nil {
+								g = o
+							}
+
+							p.callSites[g] = append(p.callSites[g], c)
+						}
+					}
+				}
+			}
+
+			for _, a := range f.AnonFuncs {
+				scan(a)
+			}
+		}
+
+		for _, f := range p.AllOwnFuncs() {
+			if f.Parent() == nil {
+				scan(f)
+			}
+		}
+	}
+
+}
+
+// knownCallers returns the call sites of f when f is an unexported top-level function or method that is
+// only ever called directly (never taken as a value): all of its callers are in the module and known.
+func (p *Program) knownCallers(f *ssa.Function) []ssa.CallInstruction {
+	if f == nil || f.Parent() != nil {
+		return nil
+	}
+
+	if o := f.Origin(); o != nil {
+		f = o
+	}
+
+	obj, ok := f.Object().(*types.Func)
+	if !ok || obj == nil || obj.Exported() {
+		return nil
+	}
+
+	p.buildCallSites()
+
+	// taken as a value somewhere: unknown callers
+	for _, g := range p.AllOwnFuncs() {
+		for _, b := range g.Blocks {
+			for _, in := range b.Instrs {
+				var buf [8]*ssa.Value
+
+				for _, op := range in.Operands(buf[:0]) {
+					if fn, isFn := (*op).(*ssa.Function); isFn && (fn == f || fn.Origin() == f) {
+						if c, isCall := in.(ssa.CallInstruction); isCall && c.Common().Value == *op {
+							continue
+						}
+
+						return nil
+					}
+				}
+			}
+		}
+	}
+
+	return p.callSites[f]
 }
